@@ -10,9 +10,9 @@ use lc3_ensemble::sim::{InternalRegister, MemAccessCtx, SimFlags, Simulator};
 use std::sync::{Arc, Mutex, OnceLock};
 
 #[derive(Clone, Copy, Debug)]
-enum Op { Load, Step, Run3, ToggleStrict, ToggleReal, ToggleIgnore, ToggleFrames, BpInsertPc, BpInsertReg, BpRemovePc, AddDev, RemoveDev3, SetKb, SetDisp, MmapPc, MunmapPc, WriteReg, WriteMem, WritePsr, TypeKey, Reset }
-const OPS: [Op; 21] = [Op::Load, Op::Step, Op::Run3, Op::ToggleStrict, Op::ToggleReal, Op::ToggleIgnore, Op::ToggleFrames, Op::BpInsertPc, Op::BpInsertReg, Op::BpRemovePc,
-    Op::AddDev, Op::RemoveDev3, Op::SetKb, Op::SetDisp, Op::MmapPc, Op::MunmapPc, Op::WriteReg, Op::WriteMem, Op::WritePsr, Op::TypeKey, Op::Reset];
+enum Op { Load, Step, Run3, ToggleStrict, ToggleReal, ToggleIgnore, ToggleFrames, BpInsertPc, BpInsertReg, BpRemovePc, AddDev, RemoveDev3, SetKb, SetDisp, MmapPc, MunmapPc, WriteReg, WriteMem, WritePsr, TypeKey, Reset, MunmapPsr, MunmapMcr }
+const OPS: [Op; 23] = [Op::Load, Op::Step, Op::Run3, Op::ToggleStrict, Op::ToggleReal, Op::ToggleIgnore, Op::ToggleFrames, Op::BpInsertPc, Op::BpInsertReg, Op::BpRemovePc,
+    Op::AddDev, Op::RemoveDev3, Op::SetKb, Op::SetDisp, Op::MmapPc, Op::MunmapPc, Op::WriteReg, Op::WriteMem, Op::WritePsr, Op::TypeKey, Op::Reset, Op::MunmapPsr, Op::MunmapMcr];
 
 fn program() -> &'static ObjectFile {
     static P: OnceLock<ObjectFile> = OnceLock::new();
@@ -26,14 +26,14 @@ impl ExternalDevice for Rec {
     fn io_reset(&mut self) {}
     fn poll_interrupt(&mut self) -> Option<Interrupt> { None }
 }
-struct World { sim: Simulator, kb: Option<BufferedKeyboard>, rec_log: Arc<Mutex<Vec<(bool, u16)>>>, rec_attached: bool, pc_mapped: bool, init: MachineInitStrategy, mcr: Arc<std::sync::atomic::AtomicBool>, touched: Vec<u16> }
+struct World { sim: Simulator, kb: Option<BufferedKeyboard>, rec_log: Arc<Mutex<Vec<(bool, u16)>>>, rec_attached: bool, pc_mapped: bool, psr_mapped: bool, mcr_mapped: bool, init: MachineInitStrategy, mcr: Arc<std::sync::atomic::AtomicBool>, touched: Vec<u16> }
 const SSP_PORT: u16 = 0xFE30;
 
 fn fresh(init: MachineInitStrategy) -> World {
     let mut sim = Simulator::new(SimFlags { machine_init: init, ..Default::default() });
     sim.mmap_internal(SSP_PORT, InternalRegister::SavedSP).unwrap();
     let mcr = sim.mcr().clone();
-    World { sim, kb: None, rec_log: Default::default(), rec_attached: false, pc_mapped: false, init, mcr, touched: vec![] }
+    World { sim, kb: None, rec_log: Default::default(), rec_attached: false, pc_mapped: false, psr_mapped: true, mcr_mapped: true, init, mcr, touched: vec![] }
 }
 fn apply(w: &mut World, op: Op) -> Result<(), (String, String)> {
     match op {
@@ -57,6 +57,8 @@ fn apply(w: &mut World, op: Op) -> Result<(), (String, String)> {
         Op::WriteMem => { w.sim.mem[0x5000].set(0xCAFE); w.sim.mem[0x0200].set(0xF025); w.touched.extend([0x5000, 0x0200]); }
         Op::WritePsr => { let _ = w.sim.write_mem(0xFFFC, Word::new_init(0x0401), MemAccessCtx::omnipotent()); let _ = w.sim.write_mem(SSP_PORT, Word::new_init(0x2222), MemAccessCtx::omnipotent()); }
         Op::TypeKey => { if let Some(kb) = &w.kb { kb.get_buffer().write().unwrap().push_back(b'k'); } }
+        Op::MunmapPsr => { if w.sim.munmap_internal(0xFFFC) { w.psr_mapped = false; } }
+        Op::MunmapMcr => { if w.sim.munmap_internal(0xFFFE) { w.mcr_mapped = false; } }
         Op::Reset => return reset_and_check(w),
     }
     Ok(())
@@ -64,7 +66,7 @@ fn apply(w: &mut World, op: Op) -> Result<(), (String, String)> {
 fn bp_set(sim: &Simulator) -> Vec<String> { let mut v: Vec<String> = sim.breakpoints.iter().map(|b| format!("{b:?}")).collect(); v.sort(); v }
 fn device_answers(w: &mut World) -> Vec<u16> {
     // what dispatch at a few ports answers (effect-free)
-    [0xFE20u16, 0xFE32, SSP_PORT, 0xFE00, 0xFE04].iter().map(|a| w.sim.read_mem(*a, MemAccessCtx::omnipotent()).map(|x| x.get()).unwrap_or(0xEEEE)).collect()
+    [0xFE20u16, 0xFE32, SSP_PORT, 0xFE00, 0xFE04, 0xFFFC].iter().map(|a| w.sim.read_mem(*a, MemAccessCtx::omnipotent()).map(|x| x.get()).unwrap_or(0xEEEE)).collect()
 }
 
 fn reset_and_check(w: &mut World) -> Result<(), (String, String)> {
@@ -95,6 +97,14 @@ fn reset_and_check(w: &mut World) -> Result<(), (String, String)> {
             if w.sim.mem[a] != fresh.mem[a] { return Err(("memory".into(), format!("mem[x{a:04X}] = {:?}, fresh {:?}", w.sim.mem[a], fresh.mem[a]))); }
         }
     }
+    // ---- a default mapping that was removed stays removed (the fresh I/O page reads 0 where nothing is mapped)
+    let psr_probe = w.sim.read_mem(0xFFFC, MemAccessCtx::omnipotent()).map(|x| x.get()).unwrap_or(0xEEEE);
+    let exp_probe = if w.psr_mapped { w.sim.psr().get() } else { 0 };
+    if psr_probe != exp_probe { return Err(("internal-mapping-changed".into(), format!("reading xFFFC gives x{psr_probe:04X} after reset, expected x{exp_probe:04X} (PSR mapping present before reset: {})", w.psr_mapped))); }
+    if !w.mcr_mapped {
+        let _ = w.sim.write_mem(0xFFFE, Word::new_init(0x8000), MemAccessCtx { privileged: true, strict: false, io_effects: true, track_access: false });
+        if w.sim.mcr().load(std::sync::atomic::Ordering::Relaxed) { return Err(("internal-mapping-changed".into(), "the MCR mapping at xFFFE was removed before reset but a store to xFFFE sets the MCR again".into())); }
+    }
     // ---- mappings and devices still answer
     if pc_mapped { let v = w.sim.read_mem(0xFE32, MemAccessCtx::omnipotent()).map(|x| x.get()).unwrap_or(0); if v != w.sim.pc { return Err(("internal-mapping-lost".into(), format!("PC mapping at xFE32 answers x{v:04X}, PC is x{:04X}", w.sim.pc))); } }
     if w.rec_attached && format!("{:?}", w.sim.device_handler).contains("Custom") {
@@ -118,7 +128,8 @@ fn fingerprint(w: &mut World) -> u64 {
     for a in device_answers(w) { h = mix(h, a as u64); }
     for a in [0x3000u16, 0x3005, 0x300B, 0x300C, 0x300D, 0x3FFF, 0x5000, 0x0200, 0x2FFF, 0x2FFE, 0x2FFD] { h = mix(h, w.sim.mem[a].get() as u64 | (w.sim.mem[a].is_init() as u64) << 16); }
     if let Some(kb) = &w.kb { h = mix(h, kb.get_buffer().read().unwrap().len() as u64 + 77); }
-    h
+    // reference-side state
+    mix(h, (w.rec_attached as u64) | (w.pc_mapped as u64) << 1 | (w.psr_mapped as u64) << 2 | (w.mcr_mapped as u64) << 3)
 }
 fn visit_with(h: &[u16], init: MachineInitStrategy) -> Visit {
     let r = catch(|| {
@@ -135,7 +146,7 @@ fn visit_with(h: &[u16], init: MachineInitStrategy) -> Visit {
 fn case_of(h: &[u16]) -> String { h.iter().map(|x| x.to_string()).collect::<Vec<_>>().join(",") }
 
 pub fn run(ctx: &Ctx) -> Report {
-    let mut rep = Report::new("explicit-state BFS over histories of 21 operations (load a program with calls, traps and I/O; step_in; run_with_limit(3); toggle strict / real traps / ignore privilege / debug frames; insert/remove PC and register breakpoints; add/remove a recording device; replace keyboard and display; map/unmap the PC register; host writes to a register, memory (user and OS), PSR and saved SP; type a key; reset) with reset() appended after EVERY prefix: all of 64K non-I/O memory, registers, PC, PSR, saved SP, frame depth/frames presence, instruction count and pause status must equal Simulator::new(same flags); flags, breakpoint set, MCR handle (Arc::ptr_eq), device handler (derived Debug), internal mappings and device dispatch must be kept. Known{x1357} (complete BFS) and Seeded{99} (same histories). non-trivial = states at depth >= 1");
+    let mut rep = Report::new("explicit-state BFS over histories of 23 operations (load a program with calls, traps and I/O; step_in; run_with_limit(3); toggle strict / real traps / ignore privilege / debug frames; insert/remove PC and register breakpoints; add/remove a recording device; replace keyboard and display; map/unmap the PC register; unmap the default PSR and MCR mappings; host writes to a register, memory (user and OS), PSR and saved SP; type a key; reset) with reset() appended after EVERY prefix: all of 64K non-I/O memory, registers, PC, PSR, saved SP, frame depth/frames presence, instruction count and pause status must equal Simulator::new(same flags); flags, breakpoint set, MCR handle (Arc::ptr_eq), device handler (derived Debug), internal mappings and device dispatch must be kept. Known{x1357} (complete BFS) and Seeded{99} (same histories). non-trivial = states at depth >= 1");
     let depth = ctx.pick(4usize, 6usize);
     let known = MachineInitStrategy::Known { value: 0x1357 };
     let (states, transitions, frontier, per_depth, capped) = bfs_hist(ctx, &mut rep.acc, OPS.len(), depth, &|h| format!("k:{}", case_of(h)), |h| visit_with(h, known));
